@@ -189,6 +189,49 @@ def BlockPostings.seek (c : Cfg) (p : BlockPostings) (target : Nat) : BlockPosti
   let p2 := p1.loadBlock c
   (p2, searchBlock c p2.docBuf target)
 
+/-- a program of seeks: the doc each one lands on (`doc_decoder.output[idx]`) -/
+def BlockPostings.seekAll (c : Cfg) : BlockPostings → List Nat → List Nat
+  | _, [] => []
+  | p, t :: ts =>
+    let r := p.seek c t
+    r.1.docBuf.getD r.2 c.T :: BlockPostings.seekAll c r.1 ts
+
+/-- in terms of the doc list: the block the skip reader stops on when it seeks `target` from the
+block starting at doc index `n` — it steps over full blocks whose last doc is `< target` -/
+def landing (B : Nat) (docs : List Nat) (target : Nat) : Nat → Nat → Nat
+  | 0, n => n
+  | fuel + 1, n =>
+    if B ≤ (docs.drop n).length ∧ ((docs.drop n).take B).getLastD 0 < target then
+      landing B docs target fuel (n + B)
+    else n
+
+inductive BOp
+  | advance
+  | seek (t : Nat)
+deriving Repr, DecidableEq
+
+/-- a block-level program: after `advance` the first doc of the new block, after `seek` the doc landed on -/
+def BlockPostings.runOps (c : Cfg) : BlockPostings → List BOp → List Nat
+  | _, [] => []
+  | p, .advance :: ops => (p.advance c).docBuf.getD 0 c.T :: BlockPostings.runOps c (p.advance c) ops
+  | p, .seek t :: ops =>
+    (p.seek c t).1.docBuf.getD (p.seek c t).2 c.T :: BlockPostings.runOps c (p.seek c t).1 ops
+
+/-- the same program on the doc list: `n` is the doc index the current block starts at -/
+def specBlockOps (B T : Nat) (docs : List Nat) (fuel : Nat) : Nat → List BOp → List Nat
+  | _, [] => []
+  | n, .advance :: ops => docs.getD (n + B) T :: specBlockOps B T docs fuel (n + B) ops
+  | n, .seek t :: ops =>
+    (docs.drop (landing B docs t fuel n)).getD ((docs.drop (landing B docs t fuel n)).countP (· < t)) T ::
+      specBlockOps B T docs fuel (landing B docs t fuel n) ops
+
+/-- the program only advances out of full blocks (from the tail block `advance` ends the list) and
+seeks targets up to TERMINATED -/
+def okBlockOps (B T : Nat) (docs : List Nat) (fuel : Nat) : Nat → List BOp → Prop
+  | _, [] => True
+  | n, .advance :: ops => B ≤ (docs.drop n).length ∧ okBlockOps B T docs fuel (n + B) ops
+  | n, .seek t :: ops => t ≤ T ∧ okBlockOps B T docs fuel (landing B docs t fuel n) ops
+
 def BlockPostings.docs (p : BlockPostings) : List Nat := p.docBuf.take p.docLen
 def BlockPostings.freqs (p : BlockPostings) : List Nat := p.tfBuf.take p.tfLen
 
